@@ -2,8 +2,8 @@
 static int bad; static void fail(const char *what){ printf("MISMATCH %s\n", what); bad++; }
 extern int lfunc_0(void); extern void *addr_lfunc_0(void); extern void *l1_addr_lfunc_0(void); int (*volatile fp_lfunc_0)(void) = lfunc_0;
 extern int ldata_1[]; extern const void *addr_ldata_1(void); extern const void *l1_addr_ldata_1(void); extern int read_ldata_1(void); extern int l1_read_ldata_1(void); int *volatile dp_ldata_1 = ldata_1;
-static int impl_eifunc_2(void){ return 56; } static void *res_eifunc_2(void){ return (void*)impl_eifunc_2; } int eifunc_2(void) __attribute__((ifunc("res_eifunc_2"))); extern void *l1_addr_eifunc_2(void); extern int l1_call_eifunc_2(void); int (*volatile fp_eifunc_2)(void) = eifunc_2;
-int efunc_3(void){ return 111; } extern void *l1_addr_efunc_3(void); extern int l1_call_efunc_3(void);
+extern int lfunc_2(void); extern void *addr_lfunc_2(void); extern void *l1_addr_lfunc_2(void); int (*volatile fp_lfunc_2)(void) = lfunc_2;
+extern int l2func_3(void); extern void *addr_l2func_3(void); extern void *l1_addr_l2func_3(void); int (*volatile fp_l2func_3)(void) = l2func_3;
 extern int lalias_4; extern void *addr_lalias_4(void); extern int read_lalias_4(void); extern void write_lalias_4(int);
 extern int lalias_sw_5; extern void *addr_lalias_sw_5(void); extern void *waddr_lalias_sw_5(void); extern int read_lalias_sw_5(void); extern void write_lalias_sw_5(int);
 extern int lalias_st_6[]; extern void *addr_lalias_st_6(void); extern void *waddr_lalias_st_6(void); extern int read_lalias_st_6(void); extern void write_lalias_st_6(int);
@@ -11,29 +11,29 @@ int main(void){
     if ((void*)lfunc_0 != addr_lfunc_0()) fail("lfunc_0: exe vs defining library");
     if ((void*)lfunc_0 != l1_addr_lfunc_0()) fail("lfunc_0: exe vs lib1");
     if ((void*)fp_lfunc_0 != (void*)lfunc_0) fail("lfunc_0: data pointer vs code reference in exe");
-    if (fp_lfunc_0() != 161 || lfunc_0() != 161) fail("lfunc_0: call result");
+    if (fp_lfunc_0() != 199 || lfunc_0() != 199) fail("lfunc_0: call result");
     if ((const void*)ldata_1 != addr_ldata_1()) fail("ldata_1: exe vs defining library");
     if ((const void*)ldata_1 != l1_addr_ldata_1()) fail("ldata_1: exe vs lib1");
     if ((const void*)dp_ldata_1 != (const void*)ldata_1) fail("ldata_1: data pointer vs code reference in exe");
-    if (ldata_1[0] != 119 || read_ldata_1() != 119) fail("ldata_1: initial value");
-    ldata_1[0] = 1119; if (read_ldata_1() != 1119 || l1_read_ldata_1() != 1119) fail("ldata_1: write through exe not seen by library");
-    if ((void*)fp_eifunc_2 != (void*)eifunc_2) fail("eifunc_2: ifunc address in data vs code in exe");
-    
-#ifdef EIFUNC_FROM_LIB
-    if ((void*)eifunc_2 != l1_addr_eifunc_2()) fail("eifunc_2: exe ifunc address seen from lib1"); if (l1_call_eifunc_2() != 56) fail("eifunc_2: ifunc call from lib1");
-#endif
-    if (eifunc_2() != 56 || fp_eifunc_2() != 56) fail("eifunc_2: ifunc call result");
-    if ((void*)efunc_3 != l1_addr_efunc_3()) fail("efunc_3: exe function seen from lib1");
-    if (l1_call_efunc_3() != 111) fail("efunc_3: call from lib1");
+    if (ldata_1[0] != 194 || read_ldata_1() != 194) fail("ldata_1: initial value");
+    ldata_1[0] = 1194; if (read_ldata_1() != 1194 || l1_read_ldata_1() != 1194) fail("ldata_1: write through exe not seen by library");
+    if ((void*)lfunc_2 != addr_lfunc_2()) fail("lfunc_2: exe vs defining library");
+    if ((void*)lfunc_2 != l1_addr_lfunc_2()) fail("lfunc_2: exe vs lib1");
+    if ((void*)fp_lfunc_2 != (void*)lfunc_2) fail("lfunc_2: data pointer vs code reference in exe");
+    if (fp_lfunc_2() != 189 || lfunc_2() != 189) fail("lfunc_2: call result");
+    if ((void*)l2func_3 != addr_l2func_3()) fail("l2func_3: exe vs defining library");
+    if ((void*)l2func_3 != l1_addr_l2func_3()) fail("l2func_3: exe vs lib1");
+    if ((void*)fp_l2func_3 != (void*)l2func_3) fail("l2func_3: data pointer vs code reference in exe");
+    if (fp_l2func_3() != 110 || l2func_3() != 110) fail("l2func_3: call result");
     if ((void*)&lalias_4 != addr_lalias_4()) fail("lalias_4: weak alias in exe vs strong symbol in library");
-    write_lalias_4(15); if (lalias_4 != 15) fail("lalias_4: write through strong symbol not seen through alias");
-    lalias_4 = 17; if (read_lalias_4() != 17) fail("lalias_4: write through alias not seen through strong symbol");
+    write_lalias_4(163); if (lalias_4 != 163) fail("lalias_4: write through strong symbol not seen through alias");
+    lalias_4 = 165; if (read_lalias_4() != 165) fail("lalias_4: write through alias not seen through strong symbol");
     if ((void*)&lalias_sw_5 != addr_lalias_sw_5() || (void*)&lalias_sw_5 != waddr_lalias_sw_5()) fail("lalias_sw_5: symbol in exe vs its alias used by the library");
-    if (lalias_sw_5 != 141 || read_lalias_sw_5() != 141) fail("lalias_sw_5: initial value");
-    lalias_sw_5 = 1141; if (read_lalias_sw_5() != 1141) fail("lalias_sw_5: write in exe not seen by the library through the alias");
-    write_lalias_sw_5(148); if (lalias_sw_5 != 148) fail("lalias_sw_5: write by the library through the alias not seen in exe");
+    if (lalias_sw_5 != 119 || read_lalias_sw_5() != 119) fail("lalias_sw_5: initial value");
+    lalias_sw_5 = 1119; if (read_lalias_sw_5() != 1119) fail("lalias_sw_5: write in exe not seen by the library through the alias");
+    write_lalias_sw_5(126); if (lalias_sw_5 != 126) fail("lalias_sw_5: write by the library through the alias not seen in exe");
     if ((void*)lalias_st_6 != addr_lalias_st_6() || (void*)lalias_st_6 != waddr_lalias_st_6()) fail("lalias_st_6: symbol in exe vs its alias used by the library");
     if (lalias_st_6[0] != 0 || read_lalias_st_6() != 0) fail("lalias_st_6: initial value");
-    lalias_st_6[0] = 1154; if (read_lalias_st_6() != 1154) fail("lalias_st_6: write in exe not seen by the library through the alias");
-    write_lalias_st_6(161); if (lalias_st_6[0] != 161) fail("lalias_st_6: write by the library through the alias not seen in exe");
+    lalias_st_6[0] = 1001; if (read_lalias_st_6() != 1001) fail("lalias_st_6: write in exe not seen by the library through the alias");
+    write_lalias_st_6(8); if (lalias_st_6[0] != 8) fail("lalias_st_6: write by the library through the alias not seen in exe");
     if (!bad) printf("OK\n"); return bad ? 1 : 0; }
